@@ -84,7 +84,9 @@ func makeSourceTree(rng *rand.Rand, root string, shape int, big bool) []string {
 		perm := rng.Perm(len(names))
 		for i := 0; i < k; i++ {
 			p := filepath.Join(root, "s", names[perm[i]])
-			if i == 0 {
+			if i == 0 && big {
+				mk(p, 40000+rng.Intn(30000), 3) // several full-size legacy chunks of bytes the escape tables protect
+			} else if i == 0 {
 				mk(p, 513+rng.Intn(5000), 3) // always one file full of bytes the escape tables protect
 			} else {
 				mk(p, sizes[rng.Intn(len(sizes))], rng.Intn(4))
@@ -100,6 +102,21 @@ func makeSourceTree(rng *rand.Rand, root string, shape int, big bool) []string {
 		mk(filepath.Join(d, "sub", "deeper", "z.bin"), sizes[rng.Intn(len(sizes))], rng.Intn(4))
 		mk(filepath.Join(d, "sub", "deeper", "zero"), 0, 0)
 		tops = append(tops, d)
+		// directories whose root holds exactly ONE entry (a file / an empty file / an empty directory)
+		switch rng.Intn(3) {
+		case 0:
+			one := filepath.Join(root, "s", "one-file")
+			mk(filepath.Join(one, "only.bin"), sizes[rng.Intn(len(sizes))], rng.Intn(4))
+			tops = append(tops, one)
+		case 1:
+			one := filepath.Join(root, "s", "one-empty-dir")
+			os.MkdirAll(filepath.Join(one, "nothing-here"), 0755)
+			tops = append(tops, one)
+		case 2:
+			one := filepath.Join(root, "s", "one-empty-file")
+			mk(filepath.Join(one, "zero"), 0, 0)
+			tops = append(tops, one)
+		}
 		if rng.Intn(2) == 0 {
 			p := filepath.Join(root, "s", "solo.dat")
 			mk(p, sizes[rng.Intn(len(sizes))], rng.Intn(4))
@@ -201,7 +218,7 @@ func genFidelity(c *ctx) {
 			escape:    c.rng.Intn(3) == 0,
 			overwrite: c.rng.Intn(3) == 0,
 			compress:  []string{"", "yes", "no", "auto"}[c.rng.Intn(4)],
-			bufsize:   []string{"", "1k", "4k", "1M"}[c.rng.Intn(4)],
+			bufsize:   []string{"", "1k", "4k", "16k", "1M"}[c.rng.Intn(5)],
 			timeout:   10,
 			quiet:     c.rng.Intn(2) == 0,
 			deadline:  40 * time.Second,
@@ -226,6 +243,21 @@ func genFidelity(c *ctx) {
 			fc.cfg.overwrite = false // duplicate names with -y are refused before the transfer starts
 		}
 		fc.chunk = []int{0, 1, 7, 100, 5000}[c.rng.Intn(5)]
+		if fc.big && fc.chunk > 0 && fc.chunk < 100 {
+			fc.chunk = 100 // megabytes in 1-2 byte reads through pipes (and relays) do not finish within the harness deadline
+		}
+		// corner configurations that are always part of the run, whatever the random draw
+		switch i {
+		case 0: // legacy protocol 1, binary upload, 16k chunks of bytes the table escapes (escaped chunk > bufsize)
+			fc.cfg.upload, fc.cfg.binary, fc.cfg.proto, fc.cfg.bufsize, fc.cfg.relays, fc.cfg.tunnel = true, true, 0, "16k", 0, false
+			fc.shape, fc.big, fc.cfg.directory, fc.chunk = 0, true, false, 0
+		case 1: // same over protocol 2
+			fc.cfg.upload, fc.cfg.binary, fc.cfg.proto, fc.cfg.bufsize, fc.cfg.relays, fc.cfg.tunnel = true, true, 2, "16k", 0, false
+			fc.shape, fc.big, fc.cfg.directory, fc.chunk = 0, true, false, 0
+		case 2, 3: // archive mode (protocol 4, no overwrite) with one-entry directories among the sources
+			fc.cfg.upload, fc.cfg.proto, fc.cfg.overwrite, fc.cfg.directory, fc.cfg.relays, fc.cfg.tunnel = i == 2, 4, false, true, 0, false
+			fc.shape, fc.chunk = 1, 0
+		}
 		fc.desc = fmt.Sprintf("%s shape=%d big=%v rechunk=%d seed=%d", describeCfg(fc.cfg), fc.shape, fc.big, fc.chunk, fc.seed)
 		cases[i] = fc
 	}
